@@ -32,6 +32,11 @@ def plan(tier, seed):
     shards.append({"kind": "operators"})
     for i in range(1 if q else 2):
         shards.append({"kind": "defs", "n": 300 if q else 6000})
+    if not q:
+        # thorough only: the repository's own tests as a source of generated code (their verdicts are ignored)
+        shards.insert(0, {"kind": "suite", "tests": ["tests/basilisp/compiler_test.py"], "jobs": 5, "timeout": 3200})
+        shards.insert(1, {"kind": "suite", "tests": ["tests/basilisp/core", "tests/basilisp/contrib"] + ["tests/basilisp/test_%s.lpy" % n for n in ("string", "set", "walk", "edn", "json", "data", "io", "pprint")],
+                          "jobs": 5, "timeout": 3200})
     return {
         "level": "translation_validation",
         "rule": "every module AST pair (before, after) passing through PythonASTOptimizer.visit while basilisp.core and the bundled library namespaces are compiled from source (caching off), while the generated "
@@ -46,7 +51,56 @@ def plan(tier, seed):
     }
 
 
+def suite_workload(spec, out):
+    """the repository's own tests as a compile workload: pytest runs over /repo/tests with the monitor plugin vf.pytest_c15 loaded in
+    every pytest process; the tests' verdicts are ignored"""
+    import glob
+    import json
+    import shutil
+    import subprocess
+    import sys
+    import tempfile
+
+    from vf import build
+
+    repo = os.environ.get("VERIF_REPO", "/repo")
+    outdir = tempfile.mkdtemp(prefix="c15suite-", dir=os.environ.get("VERIF_SCRATCH") or None)
+    env = dict(os.environ, VERIF_C15_OUT=outdir)
+    cmd = [sys.executable, "-m", "pytest", "-q", "-p", "no:cacheprovider", "-p", "vf.pytest_c15", "--timeout=900", "-n", str(spec.get("jobs", 4))] + spec["tests"]
+    try:
+        p = subprocess.run(cmd, cwd=repo, env=env, capture_output=True, text=True, timeout=spec.get("timeout", 3000), preexec_fn=build.die_with_parent)
+        tail = (p.stdout or "")[-300:]
+        stats = {"pairs": 0, "distinct": 0, "changed": 0, "ok": 0, "viol": 0}
+        nproc = 0
+        for fn in glob.glob(os.path.join(outdir, "*.jsonl")):
+            for line in open(fn):
+                rec = json.loads(line)
+                if rec["t"] == "stats":
+                    nproc += 1
+                    for k in stats:
+                        stats[k] += rec.get(k, 0)
+                elif rec["t"] == "viol":
+                    out.violation(rec["key"], {"where": rec["where"], "unoptimized_fragment": rec["unoptimized_fragment"], "optimized_fragment": rec["optimized_fragment"], "origin": "repo-suite:" + rec["test"],
+                                               "module_before": rec["module_before"]}, {"kind": "pair", "origin": "repo-suite:" + rec["test"], "before_src": rec["module_before"]})
+        out.count("programs", stats["distinct"])
+        out.ev(None, n=stats["distinct"])
+        out.count("suite_module_pairs_seen", stats["pairs"])
+        out.count("disagreements_checked", stats["changed"])
+        out.count("pairs_changed_only_by_allowed_rewrites", stats["ok"])
+        out.count("pairs_unchanged", stats["distinct"] - stats["changed"])
+        out.count("suite_pytest_processes_reporting", nproc)
+        out.sample({"suite_tests": spec["tests"], "pytest_tail": tail, "stats": stats})
+        if nproc == 0:
+            out.incon("the repository suite workload reported nothing: " + tail[-200:], {"kind": "suite"})
+    except subprocess.TimeoutExpired:
+        out.incon("the repository suite workload hit its wall-clock bound", {"kind": "suite"})
+    finally:
+        shutil.rmtree(outdir, ignore_errors=True)
+
+
 def worker(spec, out):
+    if spec.get("kind") == "suite":
+        return suite_workload(spec, out)
     import basilisp.lang.compiler.optimizer as optmod
     from basilisp.lang.compiler.constants import OPERATOR_ALIAS
 
